@@ -417,4 +417,393 @@ Proof.
   apply IH. apply wstep_ok. exact H.
 Qed.
 
+
+(* ================= structure of the history: the markers before a processed message are exactly what it sent ================= *)
+Fixpoint hist_ok (st : lpstate) (pend : list event) (es : list entry) : Prop :=
+  match es with
+  | [] => pend = []
+  | ESent m :: r => hist_ok st (pend ++ [wm_ev m]) r
+  | EProc m :: r => pend = snd (handle p (wm_ev m) st) /\ hist_ok (fst (handle p (wm_ev m) st)) [] r
+  end.
+
+(* index k is a group boundary of the history: the start, or just after a processed message *)
+Definition bnd (hist : list entry) (k : nat) : Prop := k = 0 \/ exists m, nth_error hist (pred k) = Some (EProc m).
+
+Lemma hist_ok_split es : forall st pend k, hist_ok st pend es -> 0 < k -> k <= length es ->
+  (exists m, nth_error es (pred k) = Some (EProc m)) ->
+  hist_ok st pend (firstn k es) /\ hist_ok (replay st (firstn k es)) [] (skipn k es).
+Proof.
+  induction es as [|e es IH]; intros st pend k H Hk Hle Hb; [cbn in Hle; lia|].
+  destruct k as [|k]; [lia|]. cbn [pred] in Hb. cbn [firstn skipn].
+  destruct k as [|k].
+  - (* the boundary is right after e *)
+    destruct Hb as (m & Hm). cbn in Hm. injection Hm as ->. cbn in H. destruct H as [Hp Hr].
+    cbn [firstn hist_ok]. split; [split; [exact Hp|reflexivity]|]. cbn. exact Hr.
+  - destruct e as [m|m]; cbn [hist_ok] in H |- *.
+    + destruct (IH st (pend ++ [wm_ev m]) (S k) H ltac:(lia) ltac:(cbn in Hle; lia) Hb) as [H1 H2].
+      split; [exact H1|]. cbn [Worker.replay fold_left] in *. exact H2.
+    + destruct H as [Hp Hr].
+      destruct (IH _ [] (S k) Hr ltac:(lia) ltac:(cbn in Hle; lia) Hb) as [H1 H2].
+      split; [split; [exact Hp|exact H1]|]. exact H2.
+Qed.
+
+Lemma hist_ok_bnd es st k : hist_ok st [] es -> bnd es k -> k <= length es ->
+  hist_ok st [] (firstn k es) /\ hist_ok (replay st (firstn k es)) [] (skipn k es).
+Proof.
+  intros H [->|Hb] Hle.
+  - cbn. split; [reflexivity|exact H].
+  - destruct k as [|k]; [cbn; split; [reflexivity|exact H]|]. apply hist_ok_split; [exact H|lia|exact Hle|exact Hb].
+Qed.
+
+(* appending one group *)
+Lemma hist_ok_append es : forall st pend outs (m : wmsg) marks,
+  hist_ok st pend es -> (es = [] -> pend = []) ->
+  all_sent marks -> map (fun e => wm_ev (entry_msg e)) marks = outs ->
+  outs = snd (handle p (wm_ev m) (replay st es)) ->
+  hist_ok st pend (es ++ marks ++ [EProc m]).
+Proof.
+  induction es as [|e es IH]; intros st pend outs m marks H Hnil Hm Emap Eouts.
+  - specialize (Hnil eq_refl). subst pend. cbn [app]. cbn [Worker.replay fold_left] in Eouts.
+    assert (G : forall ms acc, all_sent ms -> hist_ok st acc (ms ++ [EProc m]) <->
+                 acc ++ map (fun e => wm_ev (entry_msg e)) ms = snd (handle p (wm_ev m) st)).
+    { induction ms as [|x ms IHm]; intros acc Hs.
+      - cbn. rewrite app_nil_r. split; [intros [H0 _]; exact H0|intros H0; split; [exact H0|reflexivity]].
+      - inversion Hs as [|? ? Hx Hms]; subst. destruct x as [mx|mx]; [|discriminate]. cbn [app hist_ok map entry_msg].
+        rewrite (IHm _ Hms). rewrite <- app_assoc. reflexivity. }
+    apply G; [exact Hm|]. cbn [app]. rewrite Emap. exact Eouts.
+  - destruct e as [me|me]; cbn [app hist_ok] in *.
+    + apply (IH st (pend ++ [wm_ev me]) outs m marks H); [intros ->; cbn in H; destruct pend; discriminate| | |]; try assumption.
+    + destruct H as [Hp Hr]. split; [exact Hp|].
+      apply (IH _ [] outs m marks Hr); [reflexivity| | |]; try assumption.
+Qed.
+
+
+Lemma nth_error_firstn_lt {A} (l : list A) : forall n i, i < n -> nth_error (firstn n l) i = nth_error l i.
+Proof.
+  induction l as [|x l IH]; intros n i H; [rewrite firstn_nil; reflexivity|].
+  destruct n as [|n]; [lia|]. destruct i as [|i]; [reflexivity|]. cbn. apply IH. lia.
+Qed.
+Lemma nth_error_skipn_add {A} (l : list A) : forall k i, nth_error (skipn k l) i = nth_error l (k + i).
+Proof.
+  induction l as [|x l IH]; intros k i; [rewrite skipn_nil; destruct i, k; reflexivity|].
+  destruct k as [|k]; [reflexivity|]. cbn. apply IH.
+Qed.
+
+Definition base (x : lpx) : nat * lpstate := last (x_logs x) (0, dummy_lp).
+Definition lp_wf (x : lpx) : Prop :=
+  hist_ok (snd (base x)) [] (skipn (fst (base x)) (x_hist x)) /\ forall g, In g (x_logs x) -> bnd (x_hist x) (fst g).
+
+Lemma bnd_firstn hist k n : bnd hist k -> k <= n -> bnd (firstn n hist) k.
+Proof.
+  intros [->|(m & Hm)] Hle; [left; reflexivity|]. destruct k as [|k]; [left; reflexivity|]. right. exists m.
+  cbn [pred] in *. rewrite nth_error_firstn_lt by lia. exact Hm.
+Qed.
+Lemma bnd_skipn hist k r : bnd hist k -> r <= k -> bnd (skipn r hist) (k - r).
+Proof.
+  intros [->|(m & Hm)] Hle; [left; lia|]. destruct (Nat.eq_dec k r) as [->|Hne]; [left; lia|]. right. exists m.
+  rewrite nth_error_skipn_add. replace (r + pred (k - r)) with (pred k) by lia. exact Hm.
+Qed.
+Lemma bnd_app hist tl k : bnd hist k -> k <= length hist -> bnd (hist ++ tl) k.
+Proof.
+  intros [->|(m & Hm)] Hle; [left; reflexivity|]. destruct k as [|k]; [left; reflexivity|]. right. exists m.
+  cbn [pred] in *. rewrite nth_error_app1 by lia. exact Hm.
+Qed.
+
+(* ---- rollback ---- *)
+Lemma rollback_lp_wf x past ref snap older :
+  lp_ok x -> lp_wf x -> drop_newer (x_logs x) past = (ref, snap) :: older -> bnd (x_hist x) past ->
+  let hist' := firstn past (x_hist x) in
+  lp_wf (mkLpx hist' (x_bound x) (replay snap (sub hist' ref past)) ((ref, snap) :: older) (x_rem x) (x_epoch x)).
+Proof.
+  intros (newer & r0 & s0 & El & Hs & Hsn & Hst) [Hh Hb] Hd Hbp hist'.
+  pose proof (drop_newer_spec (x_logs x) past Hs) as Hspec. rewrite Hd in Hspec.
+  destruct Hspec as (pre & E & Hle & Hpre). cbn [fst] in Hle.
+  destruct (suffix_base pre (ref, snap) older newer r0 s0 ltac:(rewrite <- E; exact El)) as (newer' & E').
+  assert (Hsuf : StronglySorted decr ((ref, snap) :: older)) by (rewrite E in Hs; apply (sorted_app_r _ _ _ Hs)).
+  assert (Hr0 : r0 <= ref).
+  { apply (base_least newer' r0 s0 ref snap); [rewrite <- E'; exact Hsuf|rewrite <- E'; left; reflexivity]. }
+  assert (Eb : base x = (r0, s0)) by (unfold base; rewrite El; apply last_last).
+  rewrite Eb in Hh. cbn [fst snd] in Hh.
+  unfold lp_wf, base. cbn [x_logs x_hist]. rewrite E'. rewrite last_last. cbn [fst snd]. split.
+  - unfold hist'. rewrite skipn_firstn_comm.
+    apply (hist_ok_bnd (skipn r0 (x_hist x)) s0 (past - r0) Hh).
+    + apply bnd_skipn; [exact Hbp|lia].
+    + destruct (Nat.le_gt_cases past (length (x_hist x))) as [Hp|Hp]; [rewrite skipn_length; lia|].
+      (* a boundary beyond the end does not exist *)
+      destruct Hbp as [->|(m & Hm)]; [lia|]. apply nth_error_Some_lt in Hm || (assert (Hlt : pred past < length (x_hist x)) by (apply nth_error_Some; rewrite Hm; discriminate); lia).
+  - intros g Hg. rewrite <- E' in Hg. apply bnd_firstn.
+    + apply Hb. rewrite E. apply in_or_app. right. exact Hg.
+    + destruct Hg as [<-|Hg]; [exact Hle|]. inversion Hsuf as [|? ? _ Hall]; subst. rewrite Forall_forall in Hall.
+      specialize (Hall _ Hg). unfold decr in Hall. cbn in Hall. lia.
+Qed.
+
+
+(* ---- forward ---- *)
+Lemma send_all_events outs : forall w acc,
+  map (fun e => wm_ev (entry_msg e)) (snd (send_all w outs acc)) = map (fun e => wm_ev (entry_msg e)) (rev acc) ++ outs.
+Proof.
+  induction outs as [|e r IH]; intros w acc; cbn [send_all snd]; [rewrite app_nil_r; reflexivity|].
+  rewrite IH. cbn [rev]. rewrite map_app. cbn. rewrite <- app_assoc. reflexivity.
+Qed.
+
+Lemma forward_lp_wf x (m : wmsg) marks outs : lp_ok x -> lp_wf x -> all_sent marks ->
+  map (fun e => wm_ev (entry_msg e)) marks = outs -> outs = snd (handle p (wm_ev m) (x_st x)) ->
+  let st' := fst (handle p (wm_ev m) (x_st x)) in
+  let hist' := x_hist x ++ marks ++ [EProc m] in
+  forall take b rem,
+  lp_wf (mkLpx hist' b st' (if take : bool then (length hist', st') :: x_logs x else x_logs x) rem (x_epoch x)).
+Proof.
+  intros (newer & r0 & s0 & El & Hs & Hsn & Hst) [Hh Hb] Hm Emap Eouts st' hist' take b rem.
+  assert (Eb : base x = (r0, s0)) by (unfold base; rewrite El; apply last_last).
+  rewrite Eb in Hh. cbn [fst snd] in Hh.
+  assert (Hr0 : r0 <= length (x_hist x)).
+  { destruct (Hsn r0 s0) as [H _]; [rewrite El; apply in_or_app; right; left; reflexivity|exact H]. }
+  assert (Ebase : last (if take then (length hist', st') :: x_logs x else x_logs x) (0, dummy_lp) = (r0, s0)).
+  { destruct take; rewrite El; [change ((length hist', st') :: newer ++ [(r0, s0)]) with (((length hist', st') :: newer) ++ [(r0, s0)])|]; apply last_last. }
+  unfold lp_wf, base. cbn [x_logs x_hist]. rewrite Ebase. cbn [fst snd]. split.
+  - unfold hist'. rewrite skipn_app_l by exact Hr0.
+    apply (hist_ok_append (skipn r0 (x_hist x)) s0 [] outs m marks Hh (fun _ => eq_refl) Hm Emap). rewrite <- Hst. exact Eouts.
+  - assert (Hold : forall g, In g (x_logs x) -> bnd hist' (fst g)).
+    { intros [r s] Hg. apply bnd_app; [apply Hb; exact Hg|]. destruct (Hsn r s Hg) as [Hl _]. exact Hl. }
+    destruct take; [|exact Hold]. intros g [<-|Hg]; [|apply Hold; exact Hg]. cbn [fst]. right. exists m.
+    unfold hist'. rewrite !app_length. cbn [length]. replace (pred (length (x_hist x) + (length marks + 1))) with (length (x_hist x ++ marks) + 0) by (rewrite app_length; lia).
+    rewrite app_assoc. rewrite nth_error_app2 by lia. replace (length (x_hist x ++ marks) + 0 - length (x_hist x ++ marks)) with 0 by lia. reflexivity.
+Qed.
+
+(* ---- fossil collection ---- *)
+Lemma fossil_lp_wf x tgt ref snap older epoch :
+  lp_ok x -> lp_wf x -> drop_newer (x_logs x) tgt = (ref, snap) :: older ->
+  let kept := firstn (length (x_logs x) - length (drop_newer (x_logs x) tgt) + 1) (x_logs x) in
+  lp_wf (mkLpx (skipn ref (x_hist x)) (x_bound x) (x_st x) (map (fun g => (fst g - ref, snd g)) kept) (x_rem x) epoch).
+Proof.
+  intros (newer & r0 & s0 & El & Hs & Hsn & Hst) [Hh Hb] Hd kept.
+  pose proof (drop_newer_spec (x_logs x) tgt Hs) as Hspec. rewrite Hd in Hspec.
+  destruct Hspec as (pre & E & Hle & Hpre). cbn [fst] in Hle.
+  assert (Ek : kept = pre ++ [(ref, snap)]).
+  { unfold kept. rewrite Hd. rewrite E at 1 2. rewrite app_length. cbn [length].
+    replace (length pre + S (length older) - S (length older) + 1) with (length (pre ++ [(ref, snap)])) by (rewrite app_length; cbn; lia).
+    replace (pre ++ (ref, snap) :: older) with ((pre ++ [(ref, snap)]) ++ older) by (rewrite <- app_assoc; reflexivity).
+    rewrite firstn_app, firstn_all, Nat.sub_diag, firstn_O, app_nil_r. reflexivity. }
+  assert (Hks : StronglySorted decr kept).
+  { rewrite Ek. apply (sorted_app_l decr _ older). rewrite <- app_assoc. cbn. rewrite <- E. exact Hs. }
+  assert (Hkin : forall g, In g kept -> In g (x_logs x)).
+  { intros g Hg. rewrite Ek in Hg. rewrite E. apply in_app_or in Hg. apply in_or_app. destruct Hg as [Hg|[<-|[]]]; [left; exact Hg|right; left; reflexivity]. }
+  assert (Hkge : forall g, In g kept -> ref <= fst g).
+  { intros [r s] Hg. rewrite Ek in Hg. apply (base_least pre ref snap r s); [rewrite <- Ek; exact Hks|exact Hg]. }
+  assert (Hrin : In (ref, snap) (x_logs x)) by (apply Hkin; rewrite Ek; apply in_or_app; right; left; reflexivity).
+  destruct (Hsn ref snap Hrin) as [Hreflen Hsnap].
+  assert (Hr0 : r0 <= ref) by (apply (base_least newer r0 s0 ref snap); [rewrite <- El; exact Hs|rewrite <- El; exact Hrin]).
+  assert (Eb : base x = (r0, s0)) by (unfold base; rewrite El; apply last_last).
+  rewrite Eb in Hh. cbn [fst snd] in Hh.
+  unfold lp_wf, base. cbn [x_logs x_hist]. rewrite Ek, map_app. cbn [map]. rewrite last_last. cbn [fst snd]. rewrite Nat.sub_diag. split.
+  - cbn [skipn].
+    destruct (hist_ok_bnd (skipn r0 (x_hist x)) s0 (ref - r0) Hh) as [_ H2].
+    + apply bnd_skipn; [apply (Hb _ Hrin)|exact Hr0].
+    + rewrite skipn_length. lia.
+    + rewrite skipn_skipn in H2. replace (ref - r0 + r0) with ref in H2 by lia.
+      rewrite Hsnap. exact H2.
+  - intros g Hg. apply in_app_or in Hg. destruct Hg as [Hg|[<-|[]]]; [|left; reflexivity].
+    apply in_map_iff in Hg. destruct Hg as ([r1 s1] & <- & Hg1). cbn [fst].
+    assert (Hin1 : In (r1, s1) kept) by (rewrite Ek; apply in_or_app; left; exact Hg1).
+    apply bnd_skipn; [apply (Hb _ (Hkin _ Hin1))|apply (Hkge _ Hin1)].
+Qed.
+
+(* ---- the rollback targets are group boundaries ---- *)
+Lemma match_straggler_bnd f s rh : forall i, length rh = i ->
+  let k := match_straggler f s rh i in k <= i /\ bnd (rev rh) k.
+Proof.
+  induction rh as [|e r IH]; intros i Hl; cbn in Hl; subst i; cbn [match_straggler length].
+  - split; [lia|left; reflexivity].
+  - cbn zeta. destruct (IH (length r) eq_refl) as [Hk Hb]. cbn zeta in Hk, Hb.
+    assert (Hrec : match_straggler f s r (length r) <= S (length r) /\ bnd (rev (e :: r)) (match_straggler f s r (length r))).
+    { split; [lia|]. cbn [rev]. apply bnd_app; [exact Hb|rewrite rev_length; exact Hk]. }
+    destruct e as [m|m]; [exact Hrec|]. destruct (wbefore f s m); [exact Hrec|].
+    split; [lia|]. right. exists m. cbn [pred rev]. rewrite nth_error_app2 by (rewrite rev_length; lia).
+    rewrite rev_length, Nat.sub_diag. reflexivity.
+Qed.
+
+Lemma straggler_index_bnd f s hist : bnd hist (straggler_index f s hist) /\ straggler_index f s hist <= length hist.
+Proof.
+  unfold straggler_index. destruct (rev hist) as [|lst below] eqn:E; [split; [left; reflexivity|lia]|].
+  assert (Eh : hist = rev below ++ [lst]) by (rewrite <- (rev_involutive hist), E; reflexivity).
+  assert (Hl : length below = length hist - 1) by (rewrite Eh, app_length, rev_length; cbn; lia).
+  destruct (match_straggler_bnd f s below (length hist - 1) Hl) as [Hk Hb]. cbn zeta in Hk, Hb. split; [|lia].
+  set (k := match_straggler f s below (length hist - 1)) in *. clearbody k.
+  rewrite Eh. apply bnd_app; [exact Hb|rewrite rev_length; lia].
+Qed.
+
+Lemma group_start_bnd rh : forall i, length rh = i -> group_start rh i <= i /\ bnd (rev rh) (group_start rh i).
+Proof.
+  induction rh as [|e r IH]; intros i Hl; cbn in Hl; subst i; cbn [group_start length]; [split; [lia|left; reflexivity]|].
+  destruct (IH (length r) eq_refl) as [Hk Hb].
+  destruct e as [m|m]; cbn [is_proc].
+  - split; [lia|]. cbn [rev]. apply bnd_app; [exact Hb|rewrite rev_length; exact Hk].
+  - split; [lia|]. right. exists m. cbn [pred rev]. rewrite nth_error_app2 by (rewrite rev_length; lia).
+    rewrite rev_length, Nat.sub_diag. reflexivity.
+Qed.
+
+Lemma find_proc_spec id rh : forall i j below, length rh = i -> find_proc id rh i = Some (j, below) ->
+  j < i /\ length below = j /\ exists pre, rh = pre ++ below /\ length pre = i - j.
+Proof.
+  induction rh as [|e r IH]; intros i j below Hl H; cbn in Hl; subst i; cbn [find_proc length] in H; [discriminate|].
+  assert (Hrec : find_proc id r (length r) = Some (j, below) -> j < S (length r) /\ length below = j /\ exists pre, e :: r = pre ++ below /\ length pre = S (length r) - j).
+  { intros H'. destruct (IH (length r) j below eq_refl H') as (H1 & H2 & pre & E & Hp). split; [lia|]. split; [exact H2|].
+    exists (e :: pre). split; [rewrite E; reflexivity|cbn [length]; lia]. }
+  destruct e as [m|m]; [apply Hrec; exact H|]. destruct (Pos.eqb (wm_id m) id); [|apply Hrec; exact H].
+  injection H as <- <-. split; [lia|]. split; [reflexivity|]. exists [EProc m]. split; [reflexivity|cbn [length]; lia].
+Qed.
+
+Lemma anti_index_bnd id hist k : anti_index id hist = Some k -> bnd hist k /\ k <= length hist.
+Proof.
+  unfold anti_index. destruct (find_proc id (rev hist) (length hist)) as [[j below]|] eqn:Ef; [|discriminate].
+  intros H. injection H as <-.
+  destruct (find_proc_spec id (rev hist) (length hist) j below (rev_length hist) Ef) as (Hj & Hlb & pre & E & Hp).
+  destruct (group_start_bnd below j Hlb) as [Hk Hb].
+  assert (Eh : hist = rev below ++ rev pre) by (rewrite <- (rev_involutive hist), E, rev_app_distr; reflexivity).
+  split; [|lia]. rewrite Eh. apply bnd_app; [exact Hb|rewrite rev_length; lia].
+Qed.
+
+
+(* ---------- the whole worker, both invariants ---------- *)
+Definition lp_ok2 (x : lpx) : Prop := lp_ok x /\ lp_wf x.
+Definition all_ok2 (w : worker) : Prop := Forall lp_ok2 (k_lps w).
+
+Lemma put_ok2 w l x : all_ok2 w -> (l < length (k_lps w) -> lp_ok2 x) -> all_ok2 (put_lp w l x).
+Proof. intros H Hx. unfold all_ok2, put_lp, set_lps. cbn. apply set_nth_forall; assumption. Qed.
+Lemma get_ok2 w l : all_ok2 w -> l < length (k_lps w) -> lp_ok2 (get_lp w l).
+Proof. intros H Hl. unfold all_ok2 in H. rewrite Forall_forall in H. apply H. unfold get_lp. apply nth_In. exact Hl. Qed.
+
+Lemma do_rollback_ok2 w l past : all_ok2 w -> (l < length (k_lps w) -> bnd (x_hist (get_lp w l)) past) -> all_ok2 (do_rollback w l past).
+Proof.
+  intros H Hb. unfold Worker.do_rollback.
+  set (w1 := fold_left undo_entry (skipn past (x_hist (get_lp w l))) w).
+  assert (E1 : k_lps w1 = k_lps w) by apply undo_all_lps.
+  assert (H1 : all_ok2 w1) by (unfold all_ok2; rewrite E1; exact H).
+  destruct (drop_newer (x_logs (get_lp w l)) past) as [|[ref snap] older] eqn:Hd.
+  - unfold all_ok2, set_err. cbn. exact H1.
+  - apply put_ok2; [exact H1|]. intros Hl. rewrite E1 in Hl. destruct (get_ok2 w l H Hl) as [Ho Hw]. split.
+    + apply (rollback_lp_ok (get_lp w l) past ref snap older Ho Hd).
+    + apply (rollback_lp_wf (get_lp w l) past ref snap older Ho Hw Hd (Hb Hl)).
+Qed.
+
+Lemma fix_bound_ok2 x : lp_ok2 x -> lp_ok2 (fix_bound x).
+Proof.
+  intros [Ho Hw]. split; [apply fix_bound_ok; exact Ho|].
+  unfold fix_bound. destruct (x_hist x) eqn:E; [|exact Hw].
+  destruct Hw as [Hh Hb]. unfold lp_wf, base in *. cbn [x_logs x_hist]. rewrite E in Hh, Hb. split; assumption.
+Qed.
+
+Lemma fossil_ok2 w l : all_ok2 w -> all_ok2 (fossil_lp w l).
+Proof.
+  intros H. unfold fossil_lp.
+  destruct (newest_below (k_gvt w) (rev (x_hist (get_lp w l))) (length (x_hist (get_lp w l)))) as [past|]; [|exact H].
+  destruct (drop_newer (x_logs (get_lp w l)) (past + 1)) as [|[ref snap] older] eqn:Hd.
+  - exact H.
+  - apply put_ok2; [exact H|]. intros Hl. destruct (get_ok2 w l H Hl) as [Ho Hw]. split.
+    + pose proof (fossil_lp_ok (get_lp w l) (past + 1) ref snap older (k_epoch w) Ho Hd) as Hf. rewrite Hd in Hf. exact Hf.
+    + pose proof (fossil_lp_wf (get_lp w l) (past + 1) ref snap older (k_epoch w) Ho Hw Hd) as Hf. rewrite Hd in Hf. exact Hf.
+Qed.
+
+Lemma forward_ok2 w l m : all_ok2 w -> all_ok2 (forward w l m).
+Proof.
+  intros H. unfold Worker.forward.
+  destruct (handle p (wm_ev m) (x_st (get_lp w l))) as [st' outs] eqn:Eh.
+  destruct (send_all w outs []) as [w1 marks] eqn:Es.
+  assert (E1 : k_lps w1 = k_lps w) by (pose proof (send_all_lps outs w []) as X; rewrite Es in X; exact X).
+  assert (Hm : all_sent marks) by (pose proof (send_all_marks outs w [] (Forall_nil _)) as X; rewrite Es in X; exact X).
+  assert (Em : map (fun e => wm_ev (entry_msg e)) marks = outs) by (pose proof (send_all_events outs w []) as X; rewrite Es in X; exact X).
+  apply put_ok2; [unfold all_ok2; rewrite E1; exact H|]. intros Hl. rewrite E1 in Hl. destruct (get_ok2 w l H Hl) as [Ho Hw]. split.
+  - pose proof (forward_lp_ok (get_lp w l) m marks Ho Hm) as Hf. cbn zeta in Hf. rewrite Eh in Hf. cbn [fst] in Hf. apply Hf.
+  - pose proof (forward_lp_wf (get_lp w l) m marks outs Ho Hw Hm Em) as Hf. cbn zeta in Hf. rewrite Eh in Hf. cbn [fst snd] in Hf.
+    apply Hf. reflexivity.
+Qed.
+
+Lemma process_msg_ok2 w : all_ok2 w -> all_ok2 (process_msg w).
+Proof.
+  intros H. unfold Worker.process_msg.
+  pose proof (extract_lps w) as Ex. destruct (wq_extract w) as [[m|] w1]; cbn [snd] in Ex; [|unfold all_ok2; rewrite Ex; exact H].
+  assert (H1 : all_ok2 w1) by (unfold all_ok2; rewrite Ex; exact H).
+  set (l := N.to_nat (e_dest (wm_ev m))).
+  set (w2 := if Nat.eqb (x_epoch (get_lp w1 l)) (k_epoch w1) then w1 else let w' := fossil_lp w1 l in put_lp w' l (fix_bound (get_lp w' l))).
+  assert (H2 : all_ok2 w2).
+  { unfold w2. destruct (Nat.eqb _ _); [exact H1|]. cbn zeta. apply put_ok2; [apply fossil_ok2; exact H1|].
+    intros Hl. apply fix_bound_ok2. apply get_ok2; [apply fossil_ok2; exact H1|exact Hl]. }
+  destruct (flag_add (k_flags w2) (wm_id m) FLAG_PROC) as [o f].
+  assert (H3 : all_ok2 (set_flags w2 f)) by exact H2.
+  destruct (has o FLAG_ANTI).
+  - set (w4 := if N.eqb o (FLAG_ANTI + FLAG_PROC) then _ else _).
+    assert (H4 : all_ok2 w4).
+    { unfold w4. destruct (N.eqb _ _); [|exact H3].
+      destruct (anti_index _ _) as [k|] eqn:Ea; [|exact H3]. apply do_rollback_ok2; [exact H3|].
+      intros _. apply (anti_index_bnd _ _ _ Ea). }
+    apply put_ok2; [exact H4|]. intros Hl. apply fix_bound_ok2. apply get_ok2; assumption.
+  - apply forward_ok2. destruct (match last_proc _ with Some _ => _ | None => false end); [|exact H3].
+    apply do_rollback_ok2; [exact H3|]. intros _. apply straggler_index_bnd.
+Qed.
+
+Lemma hold_ok2 k : forall w, all_ok2 w -> all_ok2 (hold k w).
+Proof.
+  induction k as [|k IH]; intros w H; cbn [hold]; [exact H|].
+  pose proof (extract_lps w) as Ex. destruct (wq_extract w) as [[m|] w1]; cbn [snd] in Ex.
+  - apply IH. unfold all_ok2. cbn. rewrite Ex. exact H.
+  - unfold all_ok2. rewrite Ex. exact H.
+Qed.
+
+Lemma run_out_ok2 fuel : forall w, all_ok2 w -> all_ok2 (fst (run_out fuel w)).
+Proof.
+  induction fuel as [|f IH]; intros w H; cbn [Worker.run_out]; [exact H|].
+  destruct (wq_peek w) as [pk w1] eqn:Ep.
+  assert (H1 : all_ok2 w1) by (unfold wq_peek in Ep; injection Ep as _ <-; exact H).
+  destruct pk; [apply IH; apply process_msg_ok2; exact H1|exact H1].
+Qed.
+
+Lemma wstep_ok2 w o : all_ok2 w -> all_ok2 (wstep w o).
+Proof.
+  intros H. destruct o as [n|k|i| |d|fuel]; cbn [Worker.wstep].
+  - apply iter_ok; [apply process_msg_ok2|exact H].
+  - apply hold_ok2. exact H.
+  - unfold unhold. destruct (k_held w) as [|h hs] eqn:E; [exact H|].
+    destruct (nth _ _ None); exact H.
+  - unfold all_ok2. rewrite unhold_all_lps. exact H.
+  - unfold announce. destruct (wq_peek w) as [pk w1] eqn:Ep.
+    assert (H1 : all_ok2 w1) by (unfold wq_peek in Ep; injection Ep as _ <-; exact H).
+    destruct (min_held _ _); [|exact H1]. destruct (_ || _); exact H1.
+  - apply run_out_ok2. unfold all_ok2. rewrite unhold_all_lps. exact H.
+Qed.
+
+Lemma init_lp_ok2 w l : all_ok2 w -> all_ok2 (init_lp w l).
+Proof.
+  intros H. unfold Worker.init_lp. destruct (lp_init p (N.of_nat l)) as [st evs].
+  match goal with |- context [send_all ?w0 evs []] => set (w0' := w0) end.
+  destruct (send_all w0' evs []) as [w1 marks] eqn:Es.
+  assert (E1 : k_lps w1 = k_lps w) by (pose proof (send_all_lps evs w0' []) as X; rewrite Es in X; exact X).
+  unfold all_ok2, set_lps. cbn [k_lps]. rewrite E1. apply Forall_app. split; [exact H|]. constructor; [|constructor].
+  set (im := mkWm (k_next w) (mkEv (N.of_nat l) 0 LP_INIT_TYPE [])).
+  split.
+  - exists [], (length (marks ++ [EProc im])), st. cbn [x_logs x_hist x_st].
+    split; [reflexivity|]. split; [constructor; [constructor|constructor]|]. split.
+    + intros r s [E|[]]. injection E as <- <-. split; [lia|]. unfold sub. rewrite Nat.sub_diag. reflexivity.
+    + rewrite skipn_all. reflexivity.
+  - unfold lp_wf, base. cbn [x_logs x_hist last fst snd]. split.
+    + rewrite skipn_all. reflexivity.
+    + intros g [<-|[]]. cbn [fst]. right. exists im. rewrite app_length. cbn [length].
+      replace (pred (length marks + 1)) with (length marks + 0) by lia. rewrite nth_error_app2 by lia.
+      replace (length marks + 0 - length marks) with 0 by lia. reflexivity.
+Qed.
+
+Lemma w_init_ok2 : all_ok2 (w_init p).
+Proof.
+  unfold w_init. generalize (seq 0 (N.to_nat (p_lps p))). intros ls.
+  assert (H0 : all_ok2 (mkWk (PositiveMap.empty N) [] [] [] [] 1%positive 0 0 0 false)) by constructor.
+  revert H0. generalize (mkWk (PositiveMap.empty N) [] [] [] [] 1%positive 0 0 0 false).
+  induction ls as [|l ls IH]; intros w H; cbn; [exact H|]. apply IH. apply init_lp_ok2. exact H.
+Qed.
+
+(* Every state the worker reaches, whatever the script: state exactness AND history structure *)
+Theorem worker_states_wellformed (ops : list wop) : all_ok2 (fold_left wstep ops (w_init p)).
+Proof.
+  generalize w_init_ok2. generalize (w_init p). induction ops as [|o ops IH]; intros w H; cbn; [exact H|].
+  apply IH. apply wstep_ok2. exact H.
+Qed.
+
 End Proofs.
